@@ -661,6 +661,61 @@ Lemma project_rows_put_rows : forall (t : table) pos new fl full, (pos <= length
 Proof. intros. unfold read_buf. rewrite rows_put_rows by assumption. reflexivity. Qed.
 
 (* ------------------------------------------------------------------ *)
+(** * Header size: when VSsetname / VSsetclass make the packed header longer, they say so *)
+
+Lemma enc16_length : forall x, length (enc16 x) = 2%nat. Proof. reflexivity. Qed.
+Lemma enc32_length : forall x, length (enc32 x) = 4%nat. Proof. reflexivity. Qed.
+
+Lemma vpack_length_names : forall il nv ivs fl n1 c1 n2 c2 et er v mo,
+  (length (m_vpackvs (mkvh il nv ivs fl n1 c1 et er v mo)) + length n2 + length c2 =
+   length (m_vpackvs (mkvh il nv ivs fl n2 c2 et er v mo)) + length n1 + length c1)%nat.
+Proof.
+  intros. unfold m_vpackvs, enc_str. cbn [h_interlace h_nvertices h_ivsize h_fields h_vsname h_vsclass h_extag h_exref h_version h_more].
+  repeat rewrite app_length. repeat rewrite enc16_length. lia.
+Qed.
+
+(** the flag VSsetclass / VSsetname leave behind is set whenever the size of the packed header changed (a stored
+    string is never longer than VSNAMELENMAX) *)
+Lemma setstr_flags_change : forall grow cur new flag,
+  (forall a b, grow a b = if negb (Z.eqb a b) then 1 else 0) ->
+  Z.of_nat (length cur) <= VSNAMELENMAX ->
+  length (fst (m_setstr grow cur new flag)) <> length cur -> snd (m_setstr grow cur new flag) = true.
+Proof.
+  intros grow cur new flag Hg Hcur H. unfold m_setstr in *. cbn [fst snd] in *. rewrite Hg.
+  destruct (Z.eqb_spec (Z.of_nat (length cur)) (Z.of_nat (length new))) as [E|E]; cbn; [|apply orb_true_r].
+  exfalso. apply H.
+  destruct (VSNAMELENMAX <? Z.of_nat (length new)) eqn:E2; [apply Z.ltb_lt in E2; lia|lia].
+Qed.
+
+Lemma setclass_flags_change : forall il nv ivs fl nm c et er v mo c' flag, Z.of_nat (length c) <= VSNAMELENMAX ->
+  length (m_vpackvs (mkvh il nv ivs fl nm c et er v mo)) <>
+  length (m_vpackvs (mkvh il nv ivs fl nm (fst (m_setclass c c' flag)) et er v mo)) ->
+  snd (m_setclass c c' flag) = true.
+Proof.
+  intros il nv ivs fl nm c et er v mo c' flag Hc H.
+  pose proof (vpack_length_names il nv ivs fl nm c nm (fst (m_setclass c c' flag)) et er v mo) as E.
+  apply (setstr_flags_change vssetclass_grow_cond); [reflexivity|assumption|]. fold (m_setclass c c' flag). lia.
+Qed.
+
+Lemma setname_flags_change : forall il nv ivs fl nm c et er v mo n' flag, Z.of_nat (length nm) <= VSNAMELENMAX ->
+  length (m_vpackvs (mkvh il nv ivs fl nm c et er v mo)) <>
+  length (m_vpackvs (mkvh il nv ivs fl (fst (m_setname nm n' flag)) c et er v mo)) ->
+  snd (m_setname nm n' flag) = true.
+Proof.
+  intros il nv ivs fl nm c et er v mo n' flag Hc H.
+  pose proof (vpack_length_names il nv ivs fl nm c (fst (m_setname nm n' flag)) c et er v mo) as E.
+  apply (setstr_flags_change vssetname_grow_cond); [reflexivity|assumption|]. fold (m_setname nm n' flag). lia.
+Qed.
+
+(** and the stored string stays within VSNAMELENMAX *)
+Lemma setstr_bounded : forall grow cur new flag, Z.of_nat (length (fst (m_setstr grow cur new flag))) <= VSNAMELENMAX.
+Proof.
+  intros. unfold m_setstr. cbn [fst]. destruct (VSNAMELENMAX <? Z.of_nat (length new)) eqn:E.
+  - rewrite firstn_length. apply Z.ltb_lt in E. unfold VSNAMELENMAX in *. lia.
+  - apply Z.ltb_ge in E. exact E.
+Qed.
+
+(* ------------------------------------------------------------------ *)
 (** * The model follows the current source: the conversion calls / pointer updates of VSwrite and VSread and the
     field order of the header codec that VSModel.v was written from ([*_modelled], written by hand) are what the
     translator finds in the current vrw.c / vio.c ([Gen_VS.VSwrite_skeleton] ...).  An edit of those statements
@@ -748,8 +803,18 @@ Definition vpackvs_order_modelled : list (Z * string) :=
   [(2, "interlace"); (4, "nvertices"); (2, "ivsize"); (2, "n"); (2, "type_i"); (2, "isize_i"); (2, "off_i"); (2, "order_i"); (2, "slen"); (2, "slen"); (2, "slen"); (2, "extag"); (2, "exref"); (2, "version"); (2, "more"); (4, "flags"); (4, "nattrs"); (4, "alist_i_findex"); (2, "alist_i_atag"); (2, "alist_i_aref"); (2, "version"); (2, "more")].
 Definition vunpackvs_order_modelled : list (Z * string) :=
   [(2, "uint16var"); (2, "uint16var"); (2, "interlace"); (4, "nvertices"); (2, "ivsize"); (2, "int16var"); (2, "type_i"); (2, "isize_i"); (2, "off_i"); (2, "order_i"); (2, "int16var"); (2, "int16var"); (2, "int16var"); (2, "extag"); (2, "exref"); (2, "temp"); (2, "temp"); (4, "flags"); (4, "nattrs"); (4, "alist_i_findex"); (2, "alist_i_atag"); (2, "alist_i_aref")].
+Definition VSsetname_len_stmts_modelled : list string :=
+  ["curr_len = 0;";
+   "curr_len = (int32)strnlen(vs->vsname, 64 + 1);";
+   "slen = (int32)strlen(vsname)";
+   "if (curr_len != slen) vs->new_h_sz = (!0);"].
+Definition VSsetclass_len_stmts_modelled : list string :=
+  ["curr_len = (int)strlen(vs->vsclass);";
+   "slen = (int)strlen(vsclass)";
+   "if (curr_len != slen) vs->new_h_sz = (!0);"].
 Local Close Scope string_scope.
 Lemma model_follows_source_lemma :
   VSwrite_skeleton = VSwrite_skeleton_modelled /\ VSread_skeleton = VSread_skeleton_modelled /\
-  vpackvs_order = vpackvs_order_modelled /\ vunpackvs_order = vunpackvs_order_modelled.
+  vpackvs_order = vpackvs_order_modelled /\ vunpackvs_order = vunpackvs_order_modelled /\
+  VSsetname_len_stmts = VSsetname_len_stmts_modelled /\ VSsetclass_len_stmts = VSsetclass_len_stmts_modelled.
 Proof. repeat split; reflexivity. Qed.
